@@ -619,3 +619,25 @@ func init() {
 		return tup(Bech32Encode(strOf(in, a[0]), b), Iface{})
 	})
 }
+
+var denomRe = regexp.MustCompile(`^[a-zA-Z][a-zA-Z0-9/:._-]{2,127}$`)
+
+func init() {
+	reg("strings.Compare", func(in *Interp, fn *ssa.Function, a []Value, pos token.Pos) Value {
+		return Int64(int64(strings.Compare(strOf(in, a[0]), strOf(in, a[1]))))
+	})
+	reg(pkgSDK+".ValidateDenom", func(in *Interp, fn *ssa.Function, a []Value, pos token.Pos) Value {
+		if !denomRe.MatchString(strOf(in, a[0])) {
+			return errIface(&ErrVal{Msg: "invalid denom: " + strOf(in, a[0])})
+		}
+		return Iface{}
+	})
+}
+
+func init() {
+	for _, n := range []string{"DecCoins", "Coins", "Coin", "DecCoin"} {
+		reg("("+pkgSDK+"."+n+").String", func(in *Interp, fn *ssa.Function, a []Value, pos token.Pos) Value {
+			return &SymStr{Desc: "coins"}
+		})
+	}
+}
